@@ -60,6 +60,19 @@ func multipartMessageOrigDatagramLen(proto int, b []byte) int {
 // It can be used for non-multipart message bodies when exts is nil.
 func marshalMultipartMessageBody(proto int, withOrigDgram bool, data []byte, exts []Extension) ([]byte, error) {
 	bodyLen, dataLen := multipartMessageBodyDataLen(proto, withOrigDgram, data, exts)
+	if len(exts) > 0 && withOrigDgram {
+		// The length attribute of RFC 4884 is a single octet.
+		switch proto {
+		case iana.ProtocolICMP:
+			if dataLen/4 > 0xff {
+				return nil, errInvalidBody
+			}
+		case iana.ProtocolIPv6ICMP:
+			if dataLen/8 > 0xff {
+				return nil, errInvalidBody
+			}
+		}
+	}
 	b := make([]byte, bodyLen)
 	copy(b[4:], data)
 	if len(exts) > 0 {
